@@ -7,7 +7,7 @@ Layers
      tassign  _t_assignment_function           radii / distances incl. exact ties and exact boundaries
      oassign  _o_assignment_function           both metrics
      between  get_between_radii
-     compose  index composition t*n_o+o, *n_b+b with NaN
+     compose  _get_position_assignments + get_full_assignments on supplied component assignments (NaN included)
   trajectory level (end to end through AssignmentTool.get_full_assignments on MDAnalysis universes):
      traj     placements drawn continuously (plus structured ones close to - but outside the margin of - cell
               boundaries), several molecule classes, molgri grids and synthetic grids, outliers on/off, both metrics;
@@ -38,11 +38,11 @@ RULE = ("unit level: all sign patterns of 1..3 atoms over {-1,0,1}^3 (exhaustive
         "with principal moments separated by >= 8 %, grids from molgri names and synthetic grids (n_b 1..12, n_o 1..14, "
         "n_t 2..4), placements = uniform random rotation x uniform direction x radius from inside the first shell to beyond "
         "the outer bound, plus structured placements 3 margins away from a radial / direction / rotation cell boundary and "
-        "antipodal quaternion representatives; a frame is non-trivial and distinct by (case, frame) when it is not excluded "
+        "antipodal quaternion representatives, COM distances up to 30 A for every class; a frame is non-trivial and distinct by (case, frame) when it is not excluded "
         "by the margin rule (radial 1e-4 A, direction 1e-4 in dot product, rotation 1e-3 in |q.p|)")
 
-DECIMALS = 6                        # np.round(projection, DECIMALS) in _determine_positive_directions
-THR = Fraction(1, 2 * 10 ** DECIMALS)   # the rounded projection is zero iff |x| <= THR (5e-7)
+DECIMALS = 3                        # np.round(projection, DECIMALS) in _determine_positive_directions (fix c9b2235)
+THR = Fraction(1, 2 * 10 ** DECIMALS)   # the rounded projection is zero iff |x| <= THR (5e-4 A)
 MARGIN_T = 1e-4                     # Angstrom
 MARGIN_O = 1e-4                     # difference of dot products
 MARGIN_B = 1e-3                     # difference of |q.p|
@@ -429,10 +429,16 @@ def cases(ctx):
         yield {"kind": "oassign", "o": o.tolist(), "c": c.tolist(), "cartesian": rng.random() < 0.5}
     for _ in range(150 if quick else 3000):
         nt = rng.choice([1, 2, 3, 4, 7])
-        t = [round(rng.uniform(0.1, 3.0), 3)]
+        t = [rng.choice([round(rng.uniform(0.1, 3.0), 3)] * 4 + [0.0, -0.5])]     # zero first radius is legal, negative not
         for _k in range(nt - 1):
             t.append(round(t[-1] + rng.choice([rng.uniform(0.001, 2.0), 0.0 if rng.random() < 0.1 else 0.5]), 3))
         yield {"kind": "between", "t": t}
+    for _ in range(100 if quick else 2000):
+        nT, nO, nB = rng.randint(2, 5), rng.randint(1, 14), rng.randint(1, 14)
+        n = rng.randint(1, 12)
+        yield {"kind": "compose", "nO": nO, "nB": nB,
+               "t": [None if rng.random() < 0.2 else rng.randrange(nT) for _k in range(n)],
+               "o": [rng.randrange(nO) for _k in range(n)], "b": [rng.randrange(nB) for _k in range(n)]}
     # ---- trajectory level -------------------------------------------------------------------------------------
     classes = ["generic", "planar", "mirror", "c2v_planar", "c2v_nonplanar", "generic_axis_last"]
     ntraj = 42 if quick else 420
@@ -444,12 +450,9 @@ def cases(ctx):
             b, o, t = NAMED[rng.randrange(len(NAMED))] if not quick else NAMED[rng.randrange(7)]
             g = {"type": "name", "b": b, "o": o, "t": t}
         else:
-            g = {"type": "raw", **raw_grid(rng, rng.randint(1, 12), rng.randint(1, 14), rng.randint(2, 4), rng.choice([4.0, 9.0]))}
+            g = {"type": "raw", **raw_grid(rng, rng.randint(1, 12), rng.randint(1, 14), rng.randint(2, 4), rng.choice([4.0, 9.0, 25.0]))}
         _, og, bg, tg = grid_arrays(g)
-        # structurally-zero projections + coordinates >= 4 A can hit the open sign-noise finding: those go into
-        # separate (flagged) trajectories, so that the bulk never depends on it
-        has_zero = any(0 in row for row in _ideal_signs(mol2["els"], mol2["X"]))
-        pl = placements(rng, og, bg, tg, nfr, far_ok=not has_zero)
+        pl = placements(rng, og, bg, tg, nfr, far_ok=True)
         yield {"kind": "traj", "grid": g, "mol1": FIRST_MOL if rng.random() < 0.6 else _strip(gen_molecule(rng, "generic")),
                "mol2": _strip(mol2), "cls": cls, "placements": pl, "outliers": rng.random() < 0.35,
                "cartesian": rng.random() < 0.6}
@@ -463,20 +466,18 @@ def cases(ctx):
             b, o, t = names[rng.randrange(3 if quick else len(names))]
             g = {"type": "name", "b": b, "o": o, "t": t}
         else:
-            g = {"type": "raw", **raw_grid(rng, rng.randint(2, 8), rng.randint(2, 8), rng.randint(2, 3), 3.8)}
-        has_zero = any(0 in row for row in _ideal_signs(mol2["els"], mol2["X"]))
-        if has_zero and max(grid_arrays(g)[3]) > 3.9:
-            g = {"type": "raw", **raw_grid(rng, rng.randint(2, 8), rng.randint(2, 8), rng.randint(2, 3), 3.8)}
+            g = {"type": "raw", **raw_grid(rng, rng.randint(2, 8), rng.randint(2, 8), rng.randint(2, 3), rng.choice([3.8, 9.0, 20.0]))}
         yield {"kind": "traj", "grid": g, "mol1": FIRST_MOL, "mol2": _strip(mol2), "cls": cls, "pt": True,
                "outliers": False, "cartesian": k % 3 != 0}
-    # planar / mirror molecules far away: float32 noise of structurally-zero projections (open finding C11:sign_noise)
-    for k in range(2 if quick else 12):
-        mol2 = gen_molecule(rng, "planar" if k % 2 == 0 else "mirror")
+    # molecules with structurally zero projections far away (8..30 A): float32 noise of those projections must not matter
+    # (finding C11:sign_noise, fixed by c9b2235)
+    for k in range(6 if quick else 60):
+        mol2 = gen_molecule(rng, ["planar", "mirror", "c2v_planar", "c2v_nonplanar"][k % 4])
         g = {"type": "raw", **raw_grid(rng, 6, 6, 3, 30.0)}
         g["t"] = [8.0, 16.0, 30.0]
         _, og, bg, tg = grid_arrays(g)
         yield {"kind": "traj", "grid": g, "mol1": FIRST_MOL, "mol2": _strip(mol2), "cls": mol2["cls"] + "_far",
-               "placements": placements(rng, og, bg, tg, 4, far_ok=True), "outliers": True, "cartesian": True}
+               "placements": placements(rng, og, bg, tg, 8, far_ok=True), "outliers": True, "cartesian": True}
 
 
 def _strip(m):
@@ -499,6 +500,8 @@ def impl(case):
             from molgri.space.translations import get_between_radii
             with core.quiet():
                 return {"B": [float(x) for x in get_between_radii(np.array(case["t"], dtype=float))]}
+        if kind == "compose":
+            return impl_compose(case)
         if kind == "traj":
             return impl_traj(case)
     except Exception as e:  # the library's exception is the observable
@@ -533,6 +536,19 @@ def impl_oassign(case):
         r = AssignmentTool._o_assignment_function(self_, FakeGroup(com=np.array(case["c"], dtype=float)))
     r = np.asarray(r).flatten()
     return {"o": int(r[0]), "len": int(len(r))}
+
+
+def impl_compose(case):
+    """the two composing methods of the real class, with the three component assignments supplied"""
+    from molgri.molecules.transitions import AssignmentTool
+    t = np.array([np.nan if v is None else float(v) for v in case["t"]]) if None in case["t"] else np.array(case["t"])
+    self_ = types.SimpleNamespace(o_array=np.zeros((case["nO"], 3)), b_array=np.zeros((case["nB"], 4)),
+                                  _get_t_assignments=lambda: t, _get_o_assignments=lambda: np.array(case["o"]),
+                                  _get_quaternion_assignments=lambda: np.array(case["b"]))
+    self_._get_position_assignments = lambda: AssignmentTool._get_position_assignments(self_)
+    with core.quiet():
+        a = np.asarray(AssignmentTool.get_full_assignments(self_), dtype=float)
+    return {"full": [None if np.isnan(v) else (int(v) if float(v).is_integer() else float(v)) for v in a]}
 
 
 def build_frames(case, full):
@@ -641,6 +657,9 @@ def model_ops(case, out):
                  "nu": R(float(np.linalg.norm(u))), "cartesian": case["cartesian"]}]
     if kind == "between":
         return [{"op": "between", "t": rv(case["t"])}]
+    if kind == "compose":
+        return [{"op": "compose", "t": t, "o": o, "b": b, "no": case["nO"], "nb": case["nB"]}
+                for t, o, b in zip(case["t"], case["o"], case["b"])]
     if kind == "traj":
         if "err" in out and "grid" not in out:
             return []
@@ -673,6 +692,8 @@ def compare(ctx, case, out, mouts):
         if iv != mv:
             ctx.corr("positive_directions", case, iv, mv)
         ctx.branch("dirs:" + ("error" if "err" in out else "ok"))
+        if len(case["signs"]) == 3 and "err" not in out and 0 in case["signs"][0] and 0 in case["signs"][1]:
+            ctx.sample({**case, "directions": out["dirs"]}, limit=1)
         ctx.nt(("dirs", str(case["signs"]), case.get("scale", 1.0)))
         return
     if kind == "tassign":
@@ -690,6 +711,8 @@ def compare(ctx, case, out, mouts):
         if iv != mv:
             ctx.corr("t_assignment", case, iv, mv)
         ctx.branch("tassign:" + ("err" if "err" in out else "nan" if out["t"] is None else "idx"))
+        if case.get("dyadic") and len(case["t"]) >= 3:
+            ctx.sample({**case, "assigned": out.get("t")}, limit=2)
         ctx.nt(("t", str(case["t"]), case["d"], case["outliers"]))
         return
     if kind == "between":
@@ -703,6 +726,12 @@ def compare(ctx, case, out, mouts):
         if len(Bm) != len(out["B"]) or any(not core.close(a, b, rel=1e-13, abs_=1e-15) for a, b in zip(out["B"], Bm)):
             ctx.corr("between_radii", case, out["B"], Bm)
         ctx.nt(("between", str(case["t"])))
+        return
+    if kind == "compose":
+        mv = [m.get("ok") if "ok" in m else {"err": m["err"]} for m in mouts]
+        if "err" in out or out["full"] != mv:
+            ctx.corr("index_composition", case, out, mv)
+        ctx.nt(("compose", str(case)))
         return
     if kind == "oassign":
         m = mouts[0]
@@ -847,9 +876,21 @@ def oracle(ctx, case, out):
             ctx.fail("C11:nearest_direction", "assigned direction is not the grid direction with the largest dot product",
                      case, int(order[0]), out["o"])
         return
+    if kind == "compose":
+        if "err" in out:
+            ctx.fail("C11:compose_exception", f"index composition raised {out['err']}", case)
+            return
+        nO, nB = case["nO"], case["nB"]
+        for k, (t, o, b) in enumerate(zip(case["t"], case["o"], case["b"])):
+            exp = None if t is None else (t * nO + o) * nB + b
+            v = out["full"][k]
+            if v != exp or (v is not None and (v % nB, (v // nB) % nO, v // (nB * nO)) != (b, o, t)):
+                ctx.fail("C11:index_composition", "index is not (t*n_o+o)*n_b+b (NaN for NaN t)", case, exp, v)
+                return
+        return
     if kind == "between":
         t = case["t"]
-        inc_ok = all(b > a for a, b in zip(t, t[1:])) and t[0] > 0
+        inc_ok = all(b > a for a, b in zip(t, t[1:])) and t[0] >= 0     # the radial parser accepts a zero first radius
         if "err" in out:
             if inc_ok:
                 ctx.fail("C11:between_exception", f"between radii raised {out['err']} for increasing radii", case)
@@ -874,8 +915,8 @@ def oracle_dirs(ctx, case, out):
             ctx.fail("C11:dirs_raises_despite_offplane_atom", "ValueError although an atom has three non-zero projections",
                      case, "directions", "ValueError")
         elif determinable:
-            # some atom fixes two axes (the third follows from right-handedness), yet the code gives up:
-            # it only looks at the LAST atom when no atom has three non-zero projections
+            # some atom fixes two axes (the third follows from right-handedness), yet the code gives up
+            # (before fix c9b2235 it only looked at the LAST atom when no atom had three non-zero projections)
             ctx.fail("C11:last_atom_on_axis", "ValueError although an atom has non-zero projections on two principal axes",
                      case, "directions", "ValueError")
         return
@@ -930,6 +971,7 @@ def oracle_traj(ctx, case, out):
     els2 = case["mol2"]["els"]
     X2 = np.array(case["mol2"]["X"], dtype=float)
     ideal = _ideal_signs(els2, X2) or _ideal_signs(els2, X2, tol=1e-4) or []
+    ctx.count(max(0, out.get("n", 1) - 1))      # every frame is one evaluation of the assignment (the case itself counted 1)
     ctx.branch("traj:cls_" + case.get("cls", "?"))
     ctx.branch("traj:grid_" + case["grid"]["type"])
     ctx.branch("traj:outliers_%s" % case["outliers"])
@@ -944,12 +986,8 @@ def oracle_traj(ctx, case, out):
             ctx.branch("external:principal_axes_not_righthanded_orthonormal")
     # ---- sign-noise diagnosis (open finding): does any frame see a sign where the exact geometry has a structural zero?
     noisy_frames = set()
-    last_on_axis = False
-    if ideal:
-        first = next((i for i, s in enumerate(ideal) if 0 not in s), None)
-        sel = ideal[first] if first is not None else ideal[-1]
-        if sum(1 for s in sel if s == 0) >= 2 and any(sum(1 for s in row if s != 0) >= 2 for row in ideal):
-            last_on_axis = True
+    # since fix c9b2235 the directions must be found whenever some atom has at most one structurally zero projection
+    determinable = any(sum(1 for s in row if s == 0) <= 1 for row in ideal)
     for k, f in enumerate([{"pa": out["refpa"], "pos": out["refpos"], "com": com_of(els2, np.array(out["refpos"])).tolist()}] + out["frames"]):
         A = np.array(f["pa"])
         Y = (np.array(f["pos"]) - np.array(f["com"])) @ A.T
@@ -960,12 +998,12 @@ def oracle_traj(ctx, case, out):
                     noisy_frames.add(k - 1)      # -1 = the reference itself
     full_i = out["full"]
     if isinstance(full_i, dict):
-        if last_on_axis and full_i["err"] == "ValueError" and isinstance(out["refdir"], dict):
+        if determinable and full_i["err"] == "ValueError" and isinstance(out["refdir"], dict):
             ctx.fail("C11:last_atom_on_axis", "ValueError although an atom has non-zero projections on two principal axes",
                      case, "assignments", full_i)
         elif noisy_frames and full_i["err"] == "ValueError":
-            ctx.fail("C11:sign_noise", "float32 coordinate noise of a structurally zero projection exceeds the 6-decimal "
-                     "rounding; the frame's directions are taken from another atom / sign than the reference's", case,
+            ctx.fail("C11:sign_noise", "float32 coordinate noise of a structurally zero projection exceeds the rounding of the "
+                     "zero test; the frame's directions are taken from another atom / sign than the reference's", case,
                      "assignments", full_i)
         else:
             ctx.fail("C11:exception", f"get_full_assignments raised {full_i['err']}: {full_i.get('msg')}", case, "assignments", full_i)
